@@ -63,6 +63,7 @@ pub fn lookup(scen: &str) -> Option<Scenario> {
         "c07gen" => scen_rd::run_c07_gen,
         "c16sweep" => scen_c16::run_sweeps,
         "c08" => scen_wr::run_c08,
+        "c08huge" => scen_wr::run_c08_huge,
         "c15" => scen_wr::run_c15,
         "c07" => scen_rd::run_c07,
         "c07split" => scen_rd::run_c07_split,
